@@ -101,6 +101,15 @@ pub fn search(seed: u64, budget: &Budget, thorough: bool) -> (u64, Option<(Strin
         t.push(0); tried += 1;
         if let Err(e) = check_int(&t) { return (tried, Some((format!("int={}", t.iter().map(|x| x.to_string()).collect::<Vec<_>>().join(",")), e))); }
     } }
+    // many-sentinel texts: alphabet size + sentinel count beyond 256 switches the integer width of the transformed text
+    for &reads in &[120usize, 250, 254, 255, 256, 257, 300, 600] {
+        for alpha in [&b"a"[..], b"ACGT", b"abcdefghijkl"] {
+            let mut t = vec![];
+            for _ in 0..reads { t.extend(rng.bytes(rng.below(3) as usize, alpha)); t.push(b'$'); }
+            tried += 1;
+            if let Err(e) = check_bytes(&t, 3, 4) { return (tried, Some((format!("k=3 s=4 text={}", hex(&t)), e))); }
+        }
+    }
     let rounds = if thorough { 100000 } else { 1500 };
     for _ in 0..rounds {
         if !budget.left() { break; }
